@@ -1,6 +1,10 @@
 import Btdht.Proofs.Dht
 import Btdht.Props.C10
 import Btdht.Props.C08
+import Btdht.Proofs.RefreshBound
+import Btdht.Proofs.RefreshRun
+import Btdht.Proofs.RefreshFresh
+import Btdht.Proofs.RefreshPurge
 /-!
 # C11 — Over hours, responsive contacts are kept fresh and silent ones are purged
 
@@ -23,11 +27,26 @@ are C10's theorems, the bucket rules C08's):
 * purge: C10 (`C10_two_strikes`: two unanswered queries after the 15 minute window make a contact
   bad; `C10_bad_not_in_contacts`, `C10_bad_not_offered`: bad contacts are neither reported nor
   handed out) — restated as `C11_silent_dropped`.
-Not proved in Lean: the quantitative end-to-end bounds (30 s / 20 min / 5 min) over all
-interleavings of refresh rounds, bootstrap rounds, searches and answers with latencies. They are
-decided by the [C11] oracle of the node engine (contacts sampled every 5 virtual seconds over hours,
-always-answering vs going-silent contacts, single-contact and well-connected regimes) on the real
-node, in lockstep with the model (tie).
+Quantitative bounds (second half of this file; helpers in Proofs/RefreshBound, RefreshFair,
+RefreshRely, RefreshStep, RefreshRun, RefreshAnswer, RefreshFresh, RefreshPurge), for punctual runs
+`NRun J` of the handler + the bootstrap worker's table accesses (timers at most `J` late):
+* `C11_round_every_6s`, `C11_rounds_in_window`: once the chain is started, a refresh round at least
+  every `6 s + J` (the pending `TableRefresh` entry is never cancelled);
+* `C11_pick_fair`: the pigeonhole — with at most `m` other eligible contacts a waiting contact is
+  picked at the latest in round `⌈(m+1)/4⌉` of a 30 s window, under the rely "shields survive";
+  `C11_rely_step`, `C11_rely_hearsay`: the rely holds for every step of the node except a hearsay
+  mention of a contact whose entry is bad or gone (counter-example computed on the model);
+* `C11_fresh_within`, `C11_refresh_answer_good`: a waiting contact is queried by
+  `lr + R·(6 s + J)`, `R = m/4 + 1`, runs of any length; its answer is accepted whenever it arrives
+  and makes it good at once;
+* `C11_purged_within`: a silent contact is bad — in no find_node answer, not reported — by
+  `t0 + 2·(30 s + R·(6 s + J))`, `t0` the instant its record went stale (and it was last named).
+Hypotheses that stay explicit: the timer contract (`Punctual`), the bound `m` on competing eligible
+contacts at refresh rounds (`R·(6 s + J) < 30 s`, i.e. `m ≤ 15`; for `m ≥ 20` the 30 s figure of the
+property is not met: `R·6 s ≥ 36 s`), the rely for hearsay mentions of competitors whose entry is
+bad or gone, and — for the "never lost" clause — that the contact is still listed when its answer
+arrives (no bucket full of good nodes evicts a questionable contact in between). The [C11] oracle
+of the node engine checks the end-to-end figures on the real node in lockstep with the model.
 -/
 namespace Btdht
 
@@ -135,5 +154,519 @@ theorem C11_silent_dropped (t : Table) (target : Bytes) (now : Nat) (n : Node) (
     n.status now = .bad ∧ n ∉ t.closestNodes target now := by
   have hb := status_bad_of_strikes n now hs hr
   exact ⟨hb, fun hm => C10_bad_not_offered t target now n hm hb⟩
+
+/-! ## Quantitative bounds (P1–P4)
+
+Runs: `NRun J s t0 ops` (Proofs/RefreshBound.lean) — a list of reactions of the handler (`HOp`:
+datagram, search start, timer firing), of the first refresh round (`kick`) and of the bootstrap
+worker's two accesses to the routing table, each with its instant; instants do not decrease, no
+pending timer entry is ever overdue by more than `J` when something runs (the timer contract of
+C04, tokio: about 1 ms), and the refresh chain is started at most once. -/
+
+/-- **C11 (a refresh round at least every 6 s + J)**: in every punctual run of a node, once the
+refresh chain has been started, whenever anything runs at an instant `now` the latest refresh round
+`r` happened at most `6 s + J` before — in particular the next round comes at most `6 s + J` after
+the previous one (`C18_round_spacing`: and at least 6 s after it). Hypotheses: `hrun` the run is a
+run in the above sense; `hsplit` singles out one step of it; `hstarted` a round happened before that
+step (`r`: the latest one). -/
+theorem C11_round_every_6s (J : Nat) (selfId : Bytes) (v6 ro : Bool) (port : Option Nat) (fa : List Addr) (t0 : Nat)
+    (ops pre post : List (NOp × Nat)) (op : NOp) (now r : Nat)
+    (hrun : NRun J (HState.new selfId v6 ro port fa t0) t0 ops)
+    (hsplit : ops = pre ++ (op, now) :: post)
+    (hstarted : lrRun none (HState.new selfId v6 ro port fa t0) pre = some r) :
+    now ≤ r + 6000000000 + J := by
+  subst hsplit
+  obtain ⟨h1, h2⟩ := nrun_split J _ t0 pre _ hrun
+  have hinv := (nrun_inv J pre (fun _ => (0, 0)) _ none t0 (hdl_new J _ selfId v6 ro port fa t0)
+    (by simp [ChainInv, HState.new, Timer.new, refreshEntries]) h1).2
+  rw [hstarted] at hinv
+  have := chain_bound J _ r now hinv h2.2.1
+  rw [sixS_eq] at this
+  exact this
+
+/-- ... and `k` rounds after a round at `lr` everything still happens by `lr + (k + 1)·(6 s + J)`:
+a window of length `(k + 1)·(6 s + J)` that starts at a round contains at least `k` further rounds
+unless the run ends in it. Hypotheses: `hd` the timer bookkeeping of the searches (C04's invariant,
+true in every run: `nrun_inv`); `hc` the chain is started and its latest round was at `lr`; `hrun` a
+punctual run from there; `h0` its first instant is not later than `lr + 6 s + J`. -/
+theorem C11_rounds_in_window (J : Nat) (g : Nat → Nat × Nat) (s : HState) (lr t0 : Nat) (ops : List (NOp × Nat))
+    (hd : HDl J g s) (hc : ChainInv s (some lr)) (hrun : NRun J s t0 ops) (h0 : t0 ≤ lr + (6000000000 + J)) :
+    lastTime t0 ops ≤ lr + ((roundsOf s ops).length + 1) * (6000000000 + J) := by
+  have := rounds_time J ops g s lr t0 hd hc hrun (by rw [sixS_eq]; exact h0)
+  rw [sixS_eq] at this
+  exact this
+
+/-- **C11 (fairness of the picks — the pigeonhole)**. A window of consecutive refresh rounds
+`w = [(t₁, target₁, now₁), …]` (routing table just before the round, the round's target, its
+instant), all within `[τ, τ + 30 s)`. Hypotheses: `hlink` — between two rounds the table evolves
+under the rely `Rely C τ`: every handle of `C` that is *shielded* (its entry was queried, or credited
+with an answer, at or after `τ`) stays shielded (proved for all table operations but one:
+`C11_rely_step`, `C11_rely_hearsay`); `hall` — at every round the table satisfies the C08 invariant
+(true in every reachable state), the own id has 20 bytes, the instant lies in the window, every
+eligible contact (questionable, not queried within 30 s) other than `X` is one of `C`, and `X` is
+listed and eligible; `hm` — `C` has fewer than `4·(number of rounds)` members. Conclusion: one of the
+rounds picks `X`. So with at most `m` competitors `X` is queried at the latest in round
+`⌈(m+1)/4⌉`: `m ≤ 3` — the very next round; `m ≤ 12` — within 4 rounds. -/
+theorem C11_pick_fair (X : Handle) (C : List Handle) (τ : Nat) (w : List (Table × Bytes × Nat))
+    (hlink : Linked C τ w)
+    (hall : ∀ r ∈ w, TInv r.1 ∧ r.1.selfId.length = 20 ∧ τ ≤ r.2.2 ∧ r.2.2 < τ + 30000000000 ∧
+      (∀ n ∈ r.1.allNodes, eligB r.2.2 n = true → n.handle ≠ X → n.handle ∈ C) ∧
+      (∃ n ∈ r.1.allNodes, n.handle = X ∧ eligB r.2.2 n = true))
+    (hm : C.length < 4 * w.length) :
+    ∃ r ∈ w, X ∈ (r.1.refreshPicks r.2.1 r.2.2).map (·.handle) := by
+  refine Classical.byContradiction fun hno => ?_
+  have hok : ∀ r ∈ w, RoundOk X C τ r := fun r hr => by
+    obtain ⟨a, b, c, d, e, f⟩ := hall r hr
+    exact ⟨a, b, c, by rw [thirtyS_eq]; exact d, e, f, fun hx => hno ⟨r, hr, hx⟩⟩
+  have := unpicked_rounds X C τ w [] List.nodup_nil (by simp) (by simp) hlink hok
+  simp only [List.length_nil, Nat.zero_add] at this
+  omega
+
+/-- the picks of `C11_pick_fair` are the contacts the handler's round queries (`C11_refresh_targets`),
+and the table after the handler's round is the table-level round -/
+theorem C11_round_is_table_round (s : HState) (now : Nat) :
+    s.refreshPicks now = (s.table.refreshPicks s.roundTarget now).map (·.handle) ∧
+    (s.refresh now).1.table = s.table.afterRound s.roundTarget now :=
+  ⟨rfl, refresh_table s now⟩
+
+/-- **C11 (the rely, proved)**: every step of the node — a datagram (query, answer, error), a search
+start, a timer firing (query timeout, end-game, refresh round), the first refresh round, an answer
+accepted or a query sent by the bootstrap worker — taken at an instant `now ≥ τ` (clock ≥ 15 min, as
+in the implementation) on a table satisfying the C08 invariant keeps the shield of every handle of
+`C`, provided the step names no handle of `C` by hearsay (`op.named s`: the nodes listed in an
+accepted answer). Queries sent and received, accepted answers (the responder is offered as good)
+and mentions of other handles never break a shield. -/
+theorem C11_rely_step (s : HState) (op : NOp) (now : Nat) (C : List Handle) (τ : Nat) (ht : TInv s.table) (hle : τ ≤ now)
+    (hnow : 900000000000 ≤ now) (hC : ∀ h ∈ C, h ∉ op.named s) : Rely C τ s.table (s.nstep op now).table :=
+  nstep_rely s op now C τ ht hle hnow hC
+
+/-- **C11 (the rely for hearsay, and where it fails)**: a mention of `h` itself by another node keeps
+the shield of `h` as long as `h` still has an entry that is not bad (the offer is then ignored:
+`Node::update` keeps a good or questionable entry). The remaining case is NOT true in general and
+stays a hypothesis of the bounds below: a contact that went bad (two strikes) or was evicted, and is
+then named by another node, is re-admitted as a fresh questionable entry with no record of the
+earlier query (see the example after this theorem). -/
+theorem C11_rely_hearsay (t : Table) (ht : TInv t) (h : Handle) (now : Nat) (hnow : 900000000000 ≤ now) (τ : Nat)
+    (hs : Shielded t h τ) (hlisted : ∃ e ∈ t.allNodes, e.handle = h ∧ e.status now ≠ .bad) :
+    Shielded (t.addNode (Node.asQuestionable h now) now) h τ :=
+  shielded_offer_hearsay t ht h now hnow h τ hs (fun _ => hlisted)
+
+/-! concrete data for the examples: own id 00…0, a contact `exX` with id 80 00…0 (bucket 0), clock
+1000 s (the implementation's clock starts a week in) -/
+def exSelf : Bytes := List.replicate 20 0
+def exX : Handle := ⟨128 :: List.replicate 19 0, ⟨false, [10, 0, 0, 1], 1⟩⟩
+def exT : Nat := 1000000000000
+def exFill : List Node := List.replicate 7 (Node.asBad placeholderHandle)
+/-- a one-bucket table whose only entry is `n` -/
+def exTab (n : Node) : Table := { selfId := exSelf, buckets := [⟨n :: exFill⟩], routers := [] }
+/-- `exX` after two unanswered queries (at 1000 s and 1 ns later): struck out -/
+def exStruck : Node :=
+  { handle := exX, lastRequest := none, lastResponse := some (exT - 900000000000), lastLocalRequest := some (exT + 1), refreshRequests := 2 }
+
+theorem exTab_nodes (n : Node) (m : Node) (hm : m ∈ (exTab n).allNodes) (hl : m.lastResponse ≠ none) : m = n := by
+  simp only [exTab, Table.allNodes, List.flatMap_cons, List.flatMap_nil, List.append_nil, List.mem_cons, exFill,
+    List.mem_replicate] at hm
+  rcases hm with h | ⟨_, h⟩
+  · exact h
+  · rw [h] at hl; exact absurd rfl hl
+
+/-- **The exception to the rely, computed on the model**: `exX` is named (admitted as questionable),
+queried twice without answering — it is bad, and its shield (queried at `exT + 1 ≥ exT`) holds; a
+third node names it again 1 ns later: the entry is replaced by a fresh questionable one, the shield
+is gone and `exX` is eligible for a refresh ping at once (30 s have not passed). -/
+example :
+    markRequested (markRequested ((Table.new exSelf).addNode (Node.asQuestionable exX exT) exT) exX exT) exX (exT + 1)
+      = exTab exStruck ∧
+    exStruck.status (exT + 1) = .bad ∧ Shielded (exTab exStruck) exX exT ∧
+    (exTab exStruck).addNode (Node.asQuestionable exX (exT + 2)) (exT + 2) = exTab (Node.asQuestionable exX (exT + 2)) ∧
+    ¬ Shielded (exTab (Node.asQuestionable exX (exT + 2))) exX exT ∧
+    eligB (exT + 2) (Node.asQuestionable exX (exT + 2)) = true := by
+  refine ⟨?_, by decide, ?_, ?_, ?_, by decide⟩
+  · rw [C08_offer_local (Table.new exSelf) _ exT Bucket.new (by decide) (by decide) (by decide) (by decide) (by decide)]
+    rfl
+  · intro m hm _ hl
+    rw [exTab_nodes _ m hm hl]
+    exact Or.inl ⟨exT + 1, rfl, Nat.le_succ _⟩
+  · rw [C08_offer_local (exTab exStruck) _ (exT + 2) ⟨exStruck :: exFill⟩ (by decide) (by decide) (by decide) (by decide) (by decide)]
+    rfl
+  · intro hs
+    have hm : Node.asQuestionable exX (exT + 2) ∈ (exTab (Node.asQuestionable exX (exT + 2))).allNodes := by
+      simp [exTab, Table.allNodes]
+    rcases hs _ hm rfl (by simp [Node.asQuestionable]) with ⟨q, hq, _⟩ | ⟨r, hr, hle⟩
+    · simp [Node.asQuestionable] at hq
+    · simp only [Node.asQuestionable, Option.some.injEq] at hr
+      subst hr
+      revert hle
+      decide
+
+/-- a fresh node at clock 1000 s -/
+def exS0 : HState := HState.new exSelf false false none [] exT
+/-- the chain is started, the first timer entry fires on time, the second 1 ms late -/
+def exOps : List (NOp × Nat) := [(.kick, exT), (.h .fire, exT + 6000000000), (.h .fire, exT + 12001000000)]
+
+set_option maxRecDepth 8000 in
+/-- Non-vacuity of `C11_round_every_6s` (and of `NRun`): a punctual run with `J` = 1 ms ... -/
+theorem exRun : NRun 1000000 exS0 exT exOps := by
+  refine ⟨Nat.le_refl _, by unfold Punctual; decide, fun _ => by decide, ?_⟩
+  refine ⟨by decide, by unfold Punctual; decide, (fun h => by cases h), ?_⟩
+  exact ⟨by decide, by unfold Punctual; decide, (fun h => by cases h), trivial⟩
+
+set_option maxRecDepth 8000 in
+/-- ... in which the second firing comes exactly `6 s + J` after the round before it: the bound is attained. -/
+example : exOps = exOps.take 2 ++ (.h .fire, exT + 12001000000) :: [] ∧
+    lrRun none exS0 (exOps.take 2) = some (exT + 6000000000) ∧
+    exT + 12001000000 = (exT + 6000000000) + 6000000000 + 1000000 := by
+  refine ⟨rfl, by decide, by decide⟩
+
+theorem exTab_hearsay : (Table.new exSelf).addNode (Node.asQuestionable exX exT) exT = exTab (Node.asQuestionable exX exT) := by
+  rw [C08_offer_local (Table.new exSelf) _ exT Bucket.new (by decide) (by decide) (by decide) (by decide) (by decide)]
+  rfl
+
+theorem exTab_inv : TInv (exTab (Node.asQuestionable exX exT)) := by
+  rw [← exTab_hearsay]
+  exact (tinv_addNode _ _ _ (tinv_new exSelf)).1
+
+/-- Non-vacuity of `C11_pick_fair`: a window of one round on a table whose only contact `exX` was
+just named by another node — no competitor (`C = []`), so the round picks it. -/
+example : ∃ r ∈ [(exTab (Node.asQuestionable exX exT), flipBit exSelf 0, exT)],
+    exX ∈ (r.1.refreshPicks r.2.1 r.2.2).map (·.handle) := by
+  refine C11_pick_fair exX [] exT _ trivial (fun r hr => ?_) (by decide)
+  simp only [List.mem_singleton] at hr
+  subst hr
+  refine ⟨exTab_inv, by decide, Nat.le_refl _, by decide, fun n hn he hne => ?_, Node.asQuestionable exX exT, ?_, rfl, by decide⟩
+  · exact absurd (by rw [exTab_nodes _ n hn (elig_live _ n he)]; rfl) hne
+  · simp [exTab, Table.allNodes]
+
+/-- **C11 (freshness: a waiting contact is queried within `R = ⌈(m+1)/4⌉ = m/4 + 1` rounds, i.e.
+by `lr + R·(6 s + J)`)**. A punctual run `pre ++ [(op, u)]` from a state `s` at `t0`. Hypotheses:
+`hd`, `hc` — the timer bookkeeping of the searches and the started refresh chain with its latest
+round at `lr ≤ t0` (invariants of every run: `nrun_inv`); `ht`, `hself` — the C08 table invariant
+and a 20-byte own id; `hw` — at every refresh round of `pre` the contact `X` *waits*: it is listed,
+questionable and was not queried within the last 30 s, and every other such contact is one of the
+`m = C.length` handles of `C`; `hun` — none of these rounds picks `X`; `hR` — `R·(6 s + J) < 30 s`
+(`m ≤ 15` for `J` < 1.5 s); `hrely` — the steps of `pre` keep the shields of `C` (`C11_rely_step`
+proves it for every step that names no handle of `C`; see `C11_rely_hearsay` for the exception).
+Conclusion: whatever runs after `pre` — in particular the round that finally picks `X` — runs at
+`u ≤ lr + R·(6 s + J)`; the length of `pre` is not restricted. When the query goes out, `X`'s answer
+is accepted whenever it arrives (`C11_refresh_answer_good`): `X` is good again by
+`lr + R·(6 s + J) + rtt`. If `X` was queried less than 30 s before it turned questionable (e.g. by a
+bootstrap bucket round) it starts waiting only 30 s after that query (`C11_eligible_after`) — unless
+the answer to that query has made it good already. -/
+theorem C11_fresh_within (J : Nat) (g : Nat → Nat × Nat) (X : Handle) (C : List Handle) (s : HState) (lr t0 : Nat)
+    (pre : List (NOp × Nat)) (op : NOp) (u : Nat) (hrun : NRun J s t0 (pre ++ [(op, u)]))
+    (hd : HDl J g s) (hc : ChainInv s (some lr)) (hlr : lr ≤ t0) (ht : TInv s.table) (hself : s.table.selfId.length = 20)
+    (hR : (C.length / 4 + 1) * (6000000000 + J) < 30000000000)
+    (hrely : ∀ q op' now post, pre = q ++ (op', now) :: post → Rely C t0 (s.nrun q).table ((s.nrun q).nstep op' now).table)
+    (hw : ∀ r ∈ roundsOf s pre, Waits X C r.1 r.2.2)
+    (hun : ∀ r ∈ roundsOf s pre, X ∉ (r.1.refreshPicks r.2.1 r.2.2).map (·.handle)) :
+    u ≤ lr + (C.length / 4 + 1) * (6000000000 + J) := by
+  have := fresh_within J g X C s lr t0 pre op u hrun hd hc hlr ht hself (by rw [sixS_eq, thirtyS_eq]; exact hR) hrely hw hun
+  rw [sixS_eq] at this
+  exact this
+
+/-- **C11 (the answer to a refresh query makes the contact good, whenever it arrives)**: in every
+reachable state (`ha`: search action ids are ≥ 2 — `nrun_attr`; `ht`: C08 invariant) in which `X` is
+still listed (an entry that is not bad), a response from `X`'s address carrying `X`'s id and any
+transaction id of the refresh action is accepted — no timeout applies — and afterwards `X` is
+listed as good, whatever nodes the response names. -/
+theorem C11_refresh_answer_good (s : HState) (ha : AttrInv s) (ht : TInv s.table) (X : Handle) (q : Nat) (rsp : Resp)
+    (now : Nat) (hnow : 900000000000 ≤ now) (hid : rsp.id = X.id)
+    (hl : ∃ e ∈ s.table.allNodes, e.handle = X ∧ e.status now ≠ .bad) :
+    ∃ n ∈ (s.handleIncoming (.sym ⟨refreshAid, q⟩) (.resp rsp) X.addr now).1.table.allNodes,
+      n.handle = X ∧ n.status now = .good := by
+  rw [refresh_answer_accepted s ha q rsp X.addr now]
+  have hx : (⟨rsp.id, X.addr⟩ : Handle) = X := by rw [hid]
+  rw [hx]
+  exact answer_makes_good s.table ht X _ now hnow hl
+
+/-- a questionable contact is eligible for the refresh 30 s after it was last queried (at once if never) -/
+theorem C11_eligible_after (n : Node) (now : Nat) (hq : n.status now = .questionable)
+    (h30 : ∀ q, n.lastLocalRequest = some q → q + 30000000000 ≤ now) : eligB now n = true := by
+  have hc : Constants.RECENTLY_REQUESTED_SECS * 1000000000 = 30000000000 := by decide
+  simp only [eligB, hq, decide_true, Bool.true_and, Bool.not_eq_true', Node.recentlyRequestedFrom, hc]
+  cases hl : n.lastLocalRequest with
+  | none => rfl
+  | some q => have := h30 q hl; simp only [decide_eq_false_iff_not]; omega
+
+/-- The numbers: with at most 12 competitors (`R` = 4), timers at most 1 ms late and answers within
+2 s the contact is good again within 26.004 s < 30 s of the round before it started waiting; with
+at most 3 competitors within one round; with 20 competitors `R` = 6 and `R·6 s` = 36 s: the 30 s
+figure of the property is NOT met by 4 picks per 6 s — `R·(6 s + J)` is what holds (for `R ≥ 6` the
+30 s exclusion of the first picks has expired, so the pigeonhole no longer applies either). -/
+example : (12 / 4 + 1) * (6000000000 + 1000000) + 2000000000 < 30000000000 ∧ 3 / 4 + 1 = 1 ∧
+    (20 / 4 + 1) * 6000000000 = 36000000000 := by decide
+
+/-- Non-vacuity of `C11_refresh_answer_good`: a node whose only contact `exX` is questionable (it
+was named 2 s ago); its answer to a refresh query arrives — whatever its transaction id `q`. -/
+example (q : Nat) :
+    let s : HState := { exS0 with table := exTab (Node.asQuestionable exX exT) }
+    ∃ n ∈ (s.handleIncoming (.sym ⟨refreshAid, q⟩) (.resp (emptyResp exX.id)) exX.addr (exT + 2000000000)).1.table.allNodes,
+      n.handle = exX ∧ n.status (exT + 2000000000) = .good := by
+  intro s
+  refine C11_refresh_answer_good s ⟨by decide, (fun l hl => by cases hl), (fun l hl => by cases hl), by decide⟩ exTab_inv exX q _ _
+    (by decide) rfl ⟨Node.asQuestionable exX exT, by simp [s, exTab, Table.allNodes], rfl, by decide⟩
+
+/-- **C11 (purge: a silent contact is gone within `2·(30 s + R·(6 s + J))` of the instant its record
+went stale)**. A punctual run `ops ++ [(op, u)]` from a state `s` at `t0`, with the invariants of
+every run (`hd`, `hc` with the latest refresh round at `lr ≤ t0`, `ht`, `hself`). The contact `X`:
+`hst` — at `e0 ≤ t0` the answer and the query recorded for it are at least 15 minutes old (`e0` =
+`max(a, last query from it) + 15 min`, `a` its last accepted answer), so it is not good from `e0`
+on (C10); `hllr0` — it was not queried in the future; `henv.silent` — during `ops` it is completely
+silent: no accepted answer comes from it, no query from it is recorded, and no accepted answer names
+it (`t0` is at or after the last time another node named it: the property's `h`); `henv.comp` — at
+every refresh round at most the `m = C.length` contacts of `C` compete with it; `henv.rely` — the
+steps keep the shields of `C` (`purgeEnv_mk`: proved for every step naming no handle of `C`);
+`hR` — `R·(6 s + J) < 30 s` with `R = m/4 + 1`. Conclusion: if anything runs later than
+`t0 + 2·(30 s + R·(6 s + J))`, every entry of `X` is bad by then — two strikes: each time, at most
+30 s until it may be queried again and at most `R` rounds until a round picks it (`C11_fresh_within`),
+unless a search or the bootstrap worker queries it earlier, which is a strike as well — so `X` is in
+no closest-node enumeration (find_node / get_peers answers) and not among the contacts reported
+(`C10_bad_not_in_contacts`). With `m ≤ 12`, `J ≤ 1 ms`: 108.008 s after `t0 = max(a + 15 min, h)` —
+well within the property's 20 min after `a` / 5 min after `h`. -/
+theorem C11_purged_within (J : Nat) (g : Nat → Nat × Nat) (X : Handle) (C : List Handle) (e0 : Nat) (s : HState) (lr t0 : Nat)
+    (ops : List (NOp × Nat)) (op : NOp) (u : Nat) (hrun : NRun J s t0 (ops ++ [(op, u)]))
+    (hd : HDl J g s) (hc : ChainInv s (some lr)) (hlr : lr ≤ t0) (ht : TInv s.table) (hself : s.table.selfId.length = 20)
+    (hle : e0 ≤ t0) (henv : PurgeEnv J X C s ops) (hst : XStale X e0 s.table)
+    (hllr0 : ∀ a ∈ s.table.allNodes, a.handle = X → a.lastResponse ≠ none → ∀ x, a.lastLocalRequest = some x → x ≤ t0)
+    (hR : (C.length / 4 + 1) * (6000000000 + J) < 30000000000)
+    (hlate : t0 + 2 * (30000000000 + (C.length / 4 + 1) * (6000000000 + J)) < u) :
+    ∀ n ∈ (s.nrun ops).table.allNodes, n.handle = X →
+      n.status u = .bad ∧ ∀ target, n ∉ (s.nrun ops).table.closestNodes target u := by
+  intro n hn hnh
+  have hbad : n.status u = .bad := by
+    refine Classical.byContradiction fun hlive => ?_
+    have := purged_within J g X C e0 s lr t0 ops op u hrun hd hc hlr ht hself hle henv hst hllr0
+      (by rw [sixS_eq, thirtyS_eq]; exact hR) n hn hnh hlive
+    rw [sixS_eq, thirtyS_eq] at this
+    omega
+  exact ⟨hbad, fun target hm => C10_bad_not_offered _ target u n hm hbad⟩
+
+/-- the purge figure for `m ≤ 12` competitors and timers at most 1 ms late: 108.008 s < 5 min -/
+example : 2 * (30000000000 + (12 / 4 + 1) * (6000000000 + 1000000)) = 108008000000 ∧ 108008000000 < 300000000000 := by decide
+
+/-! ### a concrete long run (non-vacuity of `C11_fresh_within` and `C11_purged_within`) -/
+
+/-- executable check of `NRun` -/
+def punctualB (J : Nat) (s : HState) (now : Nat) : Bool := s.timer.entries.all (fun te => decide (now ≤ te.deadline + J))
+def kickOkB (s : HState) (op : NOp) : Bool :=
+  match op with
+  | .kick => (refreshEntries s.timer).isEmpty
+  | _ => true
+def nrunB (J : Nat) : HState → Nat → List (NOp × Nat) → Bool
+  | _, _, [] => true
+  | s, t0, (op, now) :: rest => decide (t0 ≤ now) && punctualB J s now && kickOkB s op && nrunB J (s.nstep op now) now rest
+
+theorem nrunB_sound (J : Nat) : ∀ (ops : List (NOp × Nat)) (s : HState) (t0 : Nat), nrunB J s t0 ops = true → NRun J s t0 ops
+  | [], _, _, _ => trivial
+  | (op, now) :: rest, s, t0, h => by
+    simp only [nrunB, Bool.and_eq_true, decide_eq_true_eq] at h
+    obtain ⟨⟨⟨h1, h2⟩, h3⟩, h4⟩ := h
+    refine ⟨h1, ?_, ?_, nrunB_sound J rest _ now h4⟩
+    · intro te hte
+      have := List.all_eq_true.mp h2 te hte
+      simpa using this
+    · intro hk
+      subst hk
+      simpa [kickOkB] using h3
+
+/-- a node whose only contact `exX` was named at 1000 s, before the refresh chain is started -/
+def exBase : HState := { exS0 with table := exTab (Node.asQuestionable exX exT) }
+/-- ... and just after the first refresh round, at 1000 s: `exX` has been queried once -/
+def exP : HState := exBase.nstep .kick exT
+/-- the refresh timer fires every 6 s, exactly on time -/
+def exFires (k : Nat) : List (NOp × Nat) := (List.range k).map (fun i => (NOp.h .fire, exT + 6000000000 * (i + 1)))
+
+set_option maxRecDepth 100000 in
+theorem exLongRun : NRun 1000000 exBase exT ((.kick, exT) :: exFires 13) :=
+  nrunB_sound _ _ _ _ (by decide +kernel)
+
+theorem exFires_only (k : Nat) : OnlyFires (exFires k) := by
+  intro x hx
+  simp only [exFires, List.mem_map] at hx
+  obtain ⟨i, _, rfl⟩ := hx
+  rfl
+
+theorem exBase_hdl : HDl 1000000 (fun _ => (0, 0)) exBase := ⟨timerOk_new, (fun l hl => by cases hl), (fun l hl => by cases hl)⟩
+
+theorem exBase_stale : XStale exX exT exBase.table := by
+  intro m hm _ hl
+  have : m = Node.asQuestionable exX exT := exTab_nodes _ m hm hl
+  subst this
+  refine ⟨fun r hr => ?_, fun q hq => by simp [Node.asQuestionable] at hq⟩
+  simp only [Node.asQuestionable, Option.some.injEq] at hr
+  subst hr
+  decide
+
+theorem exBase_punctual : Punctual 1000000 exBase exT := fun te hte => by cases hte
+
+theorem exP_self : exP.table.selfId.length = 20 := by
+  have h := (nstep_tinv exBase .kick exT exTab_inv).2.1
+  unfold exP
+  rw [h]
+  decide
+
+theorem exP_facts : HDl 1000000 (fun _ => (0, 0)) exP ∧ ChainInv exP (some exT) ∧ TInv exP.table ∧
+    exP.table.selfId.length = 20 ∧ XStale exX exT exP.table ∧
+    (∀ a ∈ exP.table.allNodes, a.handle = exX → a.lastResponse ≠ none → ∀ x, a.lastLocalRequest = some x → x ≤ exT) ∧
+    (∀ m ∈ exP.table.allNodes, m.lastResponse ≠ none → m.handle = exX) := by
+  have hprov := nstep_prov exBase .kick exT exX exT exTab_inv (Nat.le_refl _) (fun k hk => by simp [NOp.marks] at hk) exBase_stale
+  obtain ⟨hti, henv⟩ := nstep_tinv exBase .kick exT exTab_inv
+  refine ⟨nstep_dl _ _ exBase .kick exT exBase_hdl exBase_punctual,
+    nstep_chain 1000000 _ exBase none .kick exT exBase_hdl (by show refreshEntries exBase.timer = []; rfl) exBase_punctual (fun _ => rfl),
+    hti, exP_self, hprov.2, fun a ha hah hal x hx => ?_, fun m hm hl => ?_⟩
+  · obtain ⟨m, hm, _, hml, lin⟩ := hprov.1 a ha hah hal
+    have : m = Node.asQuestionable exX exT := exTab_nodes _ m hm hml
+    subst this
+    by_cases hj : (Node.asQuestionable exX exT).refreshRequests < a.refreshRequests
+    · rw [lin.hit hj] at hx; cases hx; exact Nat.le_refl _
+    · have := lin.same (by have := lin.rr; omega)
+      rw [this] at hx
+      simp [Node.asQuestionable] at hx
+  · have hev : TEv exT [] exBase.table exP.table := nstep_tev exBase .kick exT
+    obtain ⟨m0, hm0, hh0, hl0⟩ := hev.nil_handles m hm hl
+    rw [← hh0, exTab_nodes _ m0 hm0 hl0]
+    rfl
+
+/-- in the concrete run no contact but `exX` is ever listed -/
+theorem exP_comp (k : Nat) : ∀ r ∈ roundsOf exP (exFires k), ∀ n ∈ r.1.allNodes, eligB r.2.2 n = true → n.handle ≠ exX → n.handle ∈ ([] : List Handle) := by
+  intro r hr n hn he hne
+  exfalso
+  obtain ⟨q, o, now, post, e, hr', _⟩ := mem_roundsOf _ _ r hr
+  subst hr'
+  have hq : OnlyFires q := fun x hx => exFires_only k x (by rw [e]; exact List.mem_append_left _ hx)
+  obtain ⟨m, hm, hh, hl⟩ := onlyFires_handles q exP hq n hn (elig_live _ n he)
+  exact hne (hh ▸ exP_facts.2.2.2.2.2.2 m hm hl)
+
+theorem exP_env (k : Nat) (hrun : NRun 1000000 exP exT (exFires k)) : PurgeEnv 1000000 exX [] exP (exFires k) :=
+  purgeEnv_mk 1000000 exX [] exP exT (exFires k) hrun exP_facts.2.2.1 (by decide) (onlyFires_silent exX _ exP (exFires_only k))
+    (exP_comp k) (fun _ _ _ _ _ hn => by obtain ⟨h, hc, _⟩ := hn; cases hc)
+
+/-- **Non-vacuity of `C11_purged_within`**: the contact `exX`, named once at 1000 s, never answers,
+never queries, is never named again; the refresh timer fires every 6 s (13 times, `J` = 1 ms, no
+competitor: `C = []`, `R` = 1). All hypotheses hold with `e0 = t0 = lr` = 1000 s, and the 13th
+firing comes at 1078 s, after `t0 + 2·(30 s + 6.001 s)` = 1072.002 s: `exX` is bad by then. -/
+example : ∀ n ∈ (exP.nrun (exFires 12)).table.allNodes, n.handle = exX →
+    n.status (exT + 78000000000) = .bad ∧ ∀ target, n ∉ (exP.nrun (exFires 12)).table.closestNodes target (exT + 78000000000) := by
+  have hrun : NRun 1000000 exP exT (exFires 12 ++ [(NOp.h .fire, exT + 78000000000)]) := exLongRun.2.2.2
+  obtain ⟨hd, hc, ht, hself, hst, hllr, _⟩ := exP_facts
+  exact C11_purged_within 1000000 _ exX [] exT exP exT exT (exFires 12) (NOp.h .fire) (exT + 78000000000) hrun hd hc
+    (Nat.le_refl _) ht hself (Nat.le_refl _) (exP_env 12 (nrun_split _ _ _ _ _ hrun).1) hst hllr (by decide) (by decide)
+
+/-! ### five contacts: one of them has to wait a round -/
+
+def exH (i : Nat) : Handle := ⟨(128 + i) :: List.replicate 19 0, ⟨false, [10, 0, 0, 1 + i], 1⟩⟩
+def exQ (i : Nat) : Node := Node.asQuestionable (exH i) exT
+/-- a one-bucket table listing the nodes `l` -/
+def exTabL (l : List Node) : Table :=
+  { selfId := exSelf, buckets := [⟨l ++ List.replicate (8 - l.length) (Node.asBad placeholderHandle)⟩], routers := [] }
+
+theorem bucketPlacement_one (k : Nat) : bucketPlacement k 1 = 0 := by
+  unfold bucketPlacement; split <;> omega
+
+theorem exTabL_step (l : List Node) (i : Nat) (h1 : (exQ i).status exT ≠ .bad := by decide)
+    (h2 : lcp exSelf (exH i).id ≠ maxBuckets := by decide)
+    (h3 : ((⟨l ++ List.replicate (8 - l.length) (Node.asBad placeholderHandle)⟩ : Bucket).addNode (exQ i) exT).2 = true := by decide) :
+    (exTabL l).addNode (exQ i) exT =
+      { exTabL l with buckets := [((⟨l ++ List.replicate (8 - l.length) (Node.asBad placeholderHandle)⟩ : Bucket).addNode (exQ i) exT).1] } := by
+  have hb : (exTabL l).buckets[bucketPlacement (lcp (exTabL l).selfId (exQ i).handle.id) (exTabL l).buckets.length]? =
+      some ⟨l ++ List.replicate (8 - l.length) (Node.asBad placeholderHandle)⟩ := by
+    simp [exTabL, bucketPlacement_one]
+  rw [C08_offer_local (exTabL l) (exQ i) exT ⟨l ++ List.replicate (8 - l.length) (Node.asBad placeholderHandle)⟩ rfl h1 h2 hb h3]
+  simp [exTabL, bucketPlacement_one]
+
+/-- five contacts named at 1000 s, all in bucket 0 -/
+def exTab5 : Table := exTabL [exQ 0, exQ 1, exQ 2, exQ 3, exQ 4]
+
+theorem exTab5_inv : TInv exTab5 := by
+  have e0 : exTabL [] = Table.new exSelf := rfl
+  have e1 : (exTabL []).addNode (exQ 0) exT = exTabL [exQ 0] := by rw [exTabL_step [] 0]; rfl
+  have e2 : (exTabL [exQ 0]).addNode (exQ 1) exT = exTabL [exQ 0, exQ 1] := by rw [exTabL_step _ 1]; rfl
+  have e3 : (exTabL [exQ 0, exQ 1]).addNode (exQ 2) exT = exTabL [exQ 0, exQ 1, exQ 2] := by rw [exTabL_step _ 2]; rfl
+  have e4 : (exTabL [exQ 0, exQ 1, exQ 2]).addNode (exQ 3) exT = exTabL [exQ 0, exQ 1, exQ 2, exQ 3] := by rw [exTabL_step _ 3]; rfl
+  have e5 : (exTabL [exQ 0, exQ 1, exQ 2, exQ 3]).addNode (exQ 4) exT = exTab5 := by rw [exTabL_step _ 4]; rfl
+  have t0 : TInv (exTabL []) := e0 ▸ tinv_new exSelf
+  have t1 := (tinv_addNode _ (exQ 0) exT t0).1; rw [e1] at t1
+  have t2 := (tinv_addNode _ (exQ 1) exT t1).1; rw [e2] at t2
+  have t3 := (tinv_addNode _ (exQ 2) exT t2).1; rw [e3] at t3
+  have t4 := (tinv_addNode _ (exQ 3) exT t3).1; rw [e4] at t4
+  have t5 := (tinv_addNode _ (exQ 4) exT t4).1; rw [e5] at t5
+  exact t5
+
+theorem hdl_with_table (J : Nat) (g : Nat → Nat × Nat) (s : HState) (t : Table) (h : HDl J g s) : HDl J g { s with table := t } :=
+  ⟨h.timerOk, h.aidLt, h.inv⟩
+theorem chain_with_table (s : HState) (t : Table) (lr : Option Nat) (h : ChainInv s lr) : ChainInv { s with table := t } lr := h
+
+/-- the node of `exP` (chain started at 1000 s) with the five contacts listed -/
+def exW : HState := { exP with table := exTab5 }
+def exC : List Handle := [exH 0, exH 1, exH 2, exH 3]
+
+set_option maxRecDepth 100000 in
+theorem exW_run : NRun 1000000 exW exT ([(NOp.h .fire, exT + 6000000000)] ++ [(NOp.h .fire, exT + 12000000000)]) :=
+  nrunB_sound _ _ _ _ (by decide +kernel)
+
+set_option maxRecDepth 100000 in
+theorem exW_round : roundsOf exW [(NOp.h .fire, exT + 6000000000)] = [(exTab5, exW.roundTarget, exT + 6000000000)] ∧
+    Waits (exH 4) exC exTab5 (exT + 6000000000) ∧
+    exH 4 ∉ (exTab5.refreshPicks exW.roundTarget (exT + 6000000000)).map (·.handle) := by
+  refine ⟨?_, ⟨by decide +kernel, exQ 4, by decide +kernel, rfl, by decide +kernel⟩, by decide +kernel⟩
+  have hr : exW.isRound (NOp.h .fire) = true := by decide +kernel
+  simp only [roundsOf, hr, if_true, List.append_nil]
+  rfl
+
+/-- **Non-vacuity of `C11_fresh_within` (and of `Waits`, `Rely`)**: five contacts were named at
+1000 s; the round at 1006 s picks the first four and leaves `exH 4` waiting — `m` = 4 competitors,
+`R` = 2; all hypotheses hold, and the next round (1012 s) indeed comes by `lr + 2·(6 s + J)`. -/
+example : exT + 12000000000 ≤ exT + (exC.length / 4 + 1) * (6000000000 + 1000000) := by
+  obtain ⟨hd, hc, _, _, _, _, _⟩ := exP_facts
+  obtain ⟨hro, hw, hun⟩ := exW_round
+  have hdW : HDl 1000000 (fun _ => (0, 0)) exW := hdl_with_table _ _ exP exTab5 hd
+  have hcW : ChainInv exW (some exT) := chain_with_table exP exTab5 _ hc
+  have hselfW : exW.table.selfId.length = 20 := by show exTab5.selfId.length = 20; decide
+  have hR : (exC.length / 4 + 1) * (6000000000 + 1000000) < 30000000000 := by decide
+  refine C11_fresh_within 1000000 _ (exH 4) exC exW exT exT [(NOp.h .fire, exT + 6000000000)] (NOp.h .fire)
+    (exT + 12000000000) exW_run hdW hcW (Nat.le_refl _) exTab5_inv hselfW hR ?_ ?_ ?_
+  · intro q op' now post e
+    cases q with
+    | nil =>
+      simp only [List.nil_append, List.cons.injEq, Prod.mk.injEq] at e
+      obtain ⟨⟨rfl, rfl⟩, _⟩ := e
+      exact C11_rely_step exW (NOp.h .fire) _ exC exT exTab5_inv (by decide) (by decide) (fun h _ hm => by cases hm)
+    | cons x q => simp at e
+  · intro r hr; rw [hro] at hr; simp only [List.mem_singleton] at hr; subst hr
+    dsimp only
+    exact hw
+  · intro r hr; rw [hro] at hr; simp only [List.mem_singleton] at hr; subst hr
+    dsimp only
+    exact hun
+
+set_option maxRecDepth 100000 in
+/-- **Non-vacuity of `C11_pick_fair` with competitors**: two consecutive rounds (1000 s, 1006 s) on
+the five-contact table, nothing else happening in between (`Rely.refl`); `exH 4` is eligible at
+both, the other eligible contacts are the `m` = 4 handles of `exC`, `4 < 4·2`: one of the two rounds
+picks `exH 4` (the second one: the first picks `exH 0 … exH 3`, which are then excluded for 30 s). -/
+example : ∃ r ∈ [(exTab5, flipBit exSelf 0, exT), (exTab5.afterRound (flipBit exSelf 0) exT, flipBit exSelf 1, exT + 6000000000)],
+    exH 4 ∈ (r.1.refreshPicks r.2.1 r.2.2).map (·.handle) := by
+  refine C11_pick_fair (exH 4) exC exT _ ⟨Rely.refl _ _ _, trivial⟩ (fun r hr => ?_) (by decide)
+  simp only [List.mem_cons, List.not_mem_nil, or_false] at hr
+  rcases hr with rfl | rfl
+  · exact ⟨exTab5_inv, by decide, Nat.le_refl _, by decide, by decide +kernel, exQ 4, by decide +kernel, rfl, by decide +kernel⟩
+  · refine ⟨(markAll_inv _ _ _ exTab5_inv).1, ?_, by decide, by decide, by decide +kernel, ?_⟩
+    · have e : (exTab5.afterRound (flipBit exSelf 0) exT).selfId = exTab5.selfId := (markAll_inv _ _ _ exTab5_inv).2.1
+      show (exTab5.afterRound (flipBit exSelf 0) exT).selfId.length = 20
+      rw [e]; decide
+    · exact ⟨exQ 4, by decide +kernel, rfl, by decide +kernel⟩
+
+/-- Non-vacuity of `C11_rounds_in_window`: the 13 firings of the concrete run, from the state after the first round. -/
+example : lastTime exT (exFires 13) ≤ exT + ((roundsOf exP (exFires 13)).length + 1) * (6000000000 + 1000000) :=
+  C11_rounds_in_window 1000000 _ exP exT exT (exFires 13) exP_facts.1 exP_facts.2.1 exLongRun.2.2.2 (by decide)
+
+/-- Non-vacuity of `C11_rely_hearsay`: `exX` is listed as questionable (named at 1000 s, credited
+with an answer at 100 s, which shields it for `τ` = 100 s); a second mention 1 s later changes nothing. -/
+example : Shielded ((exTab (Node.asQuestionable exX exT)).addNode (Node.asQuestionable exX (exT + 1000000000)) (exT + 1000000000))
+    exX 100000000000 := by
+  refine C11_rely_hearsay _ exTab_inv exX _ (by decide) _ (fun m hm _ hl => ?_)
+    ⟨Node.asQuestionable exX exT, by simp [exTab, Table.allNodes], rfl, by decide⟩
+  rw [exTab_nodes _ m hm hl]
+  exact Or.inr ⟨100000000000, by decide, Nat.le_refl _⟩
 
 end Btdht
